@@ -140,6 +140,8 @@ class Seq:
 
     def __repr__(self):
         inner = ", ".join(show_part(p) for p in self.parts)
+        if self.kind == "dict":
+            return "{" + inner + "}"
         return f"cat({inner})" if self.kind in ("bytes", "str") else f"[{inner}]"
 
 
@@ -718,18 +720,41 @@ class Summariser:
         if expr is None:
             return
 
-        def rec(n):
+        def rec(n, sink):
             if isinstance(n, (ast.Lambda, ast.ListComp, ast.GeneratorExp, ast.DictComp, ast.SetComp)):
                 return
+            if isinstance(n, ast.BoolOp):
+                # `a and b`: what b calls happens only if a was true (`or`: only if a was false) - like a nested if
+                rec(n.values[0], sink)
+                for i in range(1, len(n.values)):
+                    inner: list = []
+                    rec(n.values[i], inner)
+                    if inner:
+                        prefix = ast.BoolOp(op=n.op, values=n.values[:i]) if i > 1 else n.values[0]
+                        ct, cf, _ = self.cond(prefix, state.env)
+                        if isinstance(n.op, ast.And):
+                            sink.append(self.mk_if(ct, cf, inner, ()))
+                        else:
+                            sink.append(self.mk_if(ct, cf, (), inner))
+                return
+            if isinstance(n, ast.IfExp):
+                rec(n.test, sink)
+                a_, b_ = [], []
+                rec(n.body, a_)
+                rec(n.orelse, b_)
+                if a_ or b_:
+                    ct, cf, _ = self.cond(n.test, state.env)
+                    sink.append(self.mk_if(ct, cf, a_, b_))
+                return
             for ch in ast.iter_child_nodes(n):
-                rec(ch)
+                rec(ch, sink)
             if isinstance(n, ast.Call) and n is not skip and self._impure(n):
                 try:
-                    state.effects.append(("call", self.canon(n, state.env)))
+                    sink.append(("call", self.canon(n, state.env)))
                 except Unsupported:
-                    state.effects.append(("call", norm(n)))
+                    sink.append(("call", norm(n)))
 
-        rec(expr)
+        rec(expr, state.effects)
 
     def stmt(self, st, state) -> State:
         env = state.env
@@ -821,6 +846,9 @@ class Summariser:
                 base = atom_text(v)
                 for k, t in enumerate(target.elts):
                     self.assign(t, Term(f"{base}[{k}]"), state)
+        elif isinstance(target, ast.Subscript) and isinstance(target.value, ast.Name) and isinstance(env.get(target.value.id), Seq) and env[target.value.id].kind == "dict" and not isinstance(target.slice, ast.Slice):
+            d = env[target.value.id]
+            env[target.value.id] = Seq("dict", d.parts + (("e", f"{self._c(target.slice, env)}: {text(v)}"),))
         else:
             # the target names a place, not a value: an attribute whose stored scalar is known is still that attribute
             key = f"{self._c(target.value, env)}.{target.attr}" if isinstance(target, ast.Attribute) else self.canon(target, env)
@@ -904,6 +932,8 @@ class Summariser:
                 assigned.add(n.id)
             if isinstance(n, ast.Call) and isinstance(n.func, ast.Attribute) and n.func.attr in ("append", "extend") and isinstance(n.func.value, ast.Name):
                 assigned.add(n.func.value.id)
+            if isinstance(n, ast.Subscript) and isinstance(n.ctx, ast.Store) and isinstance(n.value, ast.Name):
+                assigned.add(n.value.id)
             if isinstance(n, (ast.Break, ast.Yield, ast.YieldFrom, ast.Try)):
                 raise Unsupported(f"{type(n).__name__} inside a loop")
         for n in ast.walk(ast.Module(body=body, type_ignores=[])):
@@ -1098,6 +1128,10 @@ class Summariser:
             return self.cond_term(ctext, a, b, kind)
         if isinstance(node, ast.JoinedStr):
             return Term(self.canon(node, env), "str")
+        if isinstance(node, ast.Dict) and not node.keys:
+            return Seq("dict", ())
+        if isinstance(node, ast.DictComp):
+            return self.comp(node, env)
         if isinstance(node, ast.Dict) and all(isinstance(k, ast.Constant) and isinstance(k.value, str) for k in node.keys):
             return Term(self.canon(node, env), "dict", [(k.value, self._c(v, env)) for k, v in zip(node.keys, node.values)])
         if isinstance(node, ast.Attribute):
@@ -1124,13 +1158,16 @@ class Summariser:
             raise Unsupported("async comprehension")
         # desugar into a loop over a fresh accumulator
         acc = f"__comp{id(node) % 100000}"
-        inner: list = [ast.Expr(value=ast.Call(func=ast.Attribute(value=ast.Name(id=acc, ctx=ast.Load()), attr="append", ctx=ast.Load()), args=[node.elt], keywords=[]))]
+        if isinstance(node, ast.DictComp):
+            inner: list = [ast.Assign(targets=[ast.Subscript(value=ast.Name(id=acc, ctx=ast.Load()), slice=node.key, ctx=ast.Store())], value=node.value)]
+        else:
+            inner = [ast.Expr(value=ast.Call(func=ast.Attribute(value=ast.Name(id=acc, ctx=ast.Load()), attr="append", ctx=ast.Load()), args=[node.elt], keywords=[]))]
         for gen in reversed(node.generators):
             for c in reversed(gen.ifs):
                 inner = [ast.If(test=c, body=inner, orelse=[])]
             inner = [ast.For(target=gen.target, iter=gen.iter, body=inner, orelse=[])]
         st = State(dict(env), [])
-        st.env[acc] = Seq("list", ())
+        st.env[acc] = Seq("dict" if isinstance(node, ast.DictComp) else "list", ())
         for s in inner:
             ast.fix_missing_locations(ast.copy_location(s, node))
         self.depth += 1
@@ -1178,6 +1215,8 @@ class Summariser:
         name = norm(f)
         if any(isinstance(a, ast.Starred) for a in node.args) or any(k.arg is None for k in node.keywords):
             return Term(self.canon(node, env))
+        if isinstance(f, ast.Name) and f.id in ("dict", "OrderedDict") and not node.args and not node.keywords:
+            return Seq("dict", ())
         if isinstance(f, ast.Name) and f.id == "sum" and len(node.args) == 1 and not node.keywords:
             return Poly.sym(f"sum({text(self.ev(node.args[0], env))})")
         if isinstance(f, ast.Name) and f.id == "len" and len(node.args) == 1:
